@@ -85,6 +85,9 @@ class S(diff.DiffOperator):
         # check shift method
         method, shift = get_shift_method(self.k, sm.coords)
         nmax = sm.options.get("max_nstate") or self.nmax or np.inf
+        if not isinstance(shift, int) and shift.ndim - 1 < sm.ndim:
+            # batched shift: its axes are the first axes of the state matrix (append semantics)
+            shift = np.expand_dims(shift, tuple(range(shift.ndim - 1, sm.ndim)))
 
         if method == "shift-1d":
             # basic 1d shift
